@@ -82,10 +82,10 @@ CLIMATE_KW = {
 }
 
 
-def _climate_inputs(cls_name):
+def _climate_inputs(cls_name, anomalies=False):
     import pyunicorn.climate as cl
     obs = V(families._data())
-    cd = cl.ClimateData(obs, families._grid(), 5, silence_level=3)
+    cd = cl.ClimateData(obs, families._grid(), 5, anomalies=anomalies, silence_level=3)
     kw = dict(CLIMATE_KW.get(cls_name, dict(threshold=0.4, winter_only=False)), silence_level=3)
     inputs = {"observable": obs, "shared_data.observable()": cd.observable(),
               "shared_data.anomaly()": cd.anomaly()}
@@ -223,6 +223,15 @@ TARGETS = {
                        lambda obj: ["correlation"], _climate_calls),
     "mutualinfo": Target("mutualinfo", lambda: _climate_inputs("MutualInfoClimateNetwork")[:2],
                          lambda obj: ["mutual_information"], _climate_calls),
+    # the same classes on data flagged "already anomalies" (the data object then hands out its own array)
+    "tsonis_anom": Target("tsonis_anom", lambda: _climate_inputs("TsonisClimateNetwork", True)[:2],
+                          lambda obj: ["correlation"], _climate_calls),
+    "spearman_anom": Target("spearman_anom", lambda: _climate_inputs("SpearmanClimateNetwork", True)[:2],
+                            lambda obj: ["correlation"], _climate_calls),
+    "mutualinfo_anom": Target("mutualinfo_anom", lambda: _climate_inputs("MutualInfoClimateNetwork", True)[:2],
+                              lambda obj: ["mutual_information"], _climate_calls),
+    "havlin_anom": Target("havlin_anom", lambda: _climate_inputs("HavlinClimateNetwork", True)[:2],
+                          lambda obj: [], _climate_calls),
     "havlin": Target("havlin", lambda: _climate_inputs("HavlinClimateNetwork")[:2], lambda obj: [], _climate_calls),
     "hilbert": Target("hilbert", lambda: _climate_inputs("HilbertClimateNetwork")[:2], lambda obj: [], _climate_calls),
     "partialcorr": Target("partialcorr", lambda: _climate_inputs("PartialCorrelationClimateNetwork")[:2],
@@ -541,7 +550,8 @@ def _nontrivial(rec):
 
 
 QUICK_TARGETS = ["network", "rp", "rn", "jrp", "surrogates", "climate", "resnetwork", "tsonis", "mutualinfo",
-                 "spearman", "isrn", "eventseries", "interacting_disc", "havlin", "hilbert", "partialcorr"]
+                 "spearman", "isrn", "eventseries", "interacting_disc", "havlin", "hilbert", "partialcorr",
+                 "mutualinfo_anom", "spearman_anom", "tsonis_anom", "havlin_anom"]
 
 
 def main(ctx):
